@@ -80,7 +80,7 @@ func c17Place(pos, long string, s1, s2 string, finalNL bool) string {
 	return t
 }
 
-var c17Cmds = []string{"generate definition", "generate definition repeated", "generate entry", "generate include", "generate include-except", "generate cmdline", "format", "renumber-tests", "update-copyright", "update"}
+var c17Cmds = []string{"generate include pairs", "generate block", "compare", "generate definition", "generate definition repeated", "generate entry", "generate include", "generate include-except", "generate cmdline", "format", "renumber-tests", "update-copyright", "update"}
 
 func C17(r *core.Run) {
 	dir := ""
@@ -171,6 +171,47 @@ func C17(r *core.Run) {
 				}
 			}
 			return verdict(ok, false, true, why, len(o.Out))
+		case "generate include pairs":
+			// suffix replacement walks the included lines once more
+			os.WriteFile(filepath.Join(wd, "regex-assembly/include/long.ra"), []byte(c17Place(c.Pos, "x"+long, "sentinelone", "sentineltwo", c.FinalNL)), 0o644)
+			o := root.Generate("before\n##!> include long -- one uno aa bb\nafter\n")
+			if o.Kind != inproc.OK {
+				return verdict(false, true, true, "", 0)
+			}
+			entry := "x" + long
+			if len(long) >= 2 {
+				entry = "x" + long[:len(long)-2] + "bb"
+			}
+			ok, why := matchAll(o.Out, entry, "sentineluno", "sentineltwo", "before", "after")
+			return verdict(ok, false, true, why, len(o.Out))
+		case "generate block":
+			// the long line inside a nested block, stored and used twice
+			o := root.Generate("##!> assemble\n##!> assemble\n" + c17Place(c.Pos, "x"+long, "sentinelone", "sentineltwo", true) + "##!<\n##!=< keep\n##!=> keep\n##!=>\n##!=> keep\n##!<\ntail" + map[bool]string{true: "\n", false: ""}[c.FinalNL])
+			if o.Kind != inproc.OK {
+				return verdict(false, true, true, "", 0)
+			}
+			ok, why := matchAll(o.Out, "x"+long+"sentinelone", "sentineltwo"+"x"+long, "tail")
+			return verdict(ok, false, true, why, len(o.Out))
+		case "compare":
+			// after update, compare must see the (long) stored operand as unchanged and a one-byte edit at its end as changed
+			p := filepath.Join(wd, "rules/REQUEST-123-TEST.conf")
+			rule := "SecRule ARGS \"@rx OLD\" \\\n    \"id:123456,\\\n    t:none\""
+			x := c17Place(c.Pos, "# "+long, rule, "# tail", c.FinalNL)
+			os.WriteFile(p, []byte(x), 0o644)
+			os.WriteFile(filepath.Join(wd, "regex-assembly/123456.ra"), []byte("y"+long+"\n"), 0o644)
+			if ur := root.Update("123456"); ur.Kind != inproc.OK {
+				b, _ := os.ReadFile(p)
+				return verdict(false, true, string(b) == x, "update failed but the file changed", len(b))
+			}
+			c1 := root.Compare("123456", true)
+			b, _ := os.ReadFile(p)
+			edited := strings.Replace(string(b), long+"\" \\", long+"Z\" \\", 1)
+			os.WriteFile(p, []byte(edited), 0o644)
+			c2 := root.Compare("123456", true)
+			if edited == string(b) {
+				return verdict(false, false, true, "stored operand not found in the rules file after update", len(b))
+			}
+			return verdict(c1.Kind == inproc.OK && c2.Kind != inproc.OK, false, true, fmt.Sprintf("compare after update: %s; compare after editing the last byte of the operand: %s", c1.Kind, c2.Kind), len(b))
 		case "generate cmdline":
 			o := root.Generate("##!> cmdline unix\n" + c17Place(c.Pos, "x"+long, "ls", "cat", c.FinalNL) + "\n##!<\n")
 			if o.Kind != inproc.OK {
